@@ -193,8 +193,7 @@ def parse_via(channel, recipe, obj, extra_argv=None):
 
 def run_case(ctx, case):
     if case.get("kind") == "required":
-        if case.get("mutation") != "none":
-            required_family(ctx, only=case)
+        required_family(ctx, only=case)
         return
     recipe = case["recipe"]
     obj, poss = all_positions(case)
@@ -212,7 +211,9 @@ def run_case(ctx, case):
         deep = len(path) >= 2 or kind in ("init_args", "spec", "subcommand-section") or any(isinstance(s, int) for s in path)
         muts = [("insert-foreign-key", lambda m: m.__setitem__(FOREIGN, 1), FOREIGN),
                 # a foreign name that looks like an append ('key+'): it is a key of the configuration like any other
-                ("insert-foreign-key+", lambda m: m.__setitem__(FOREIGN + "+", [1]), FOREIGN)]
+                ("insert-foreign-key+", lambda m: m.__setitem__(FOREIGN + "+", [1]), FOREIGN),
+                # ... and one whose value is an empty section
+                ("insert-foreign-key{}", lambda m: m.__setitem__(FOREIGN, {}), FOREIGN)]
         for r in required:
             if r == "class_path":
                 continue
@@ -252,12 +253,25 @@ def run_case(ctx, case):
                 if deep:
                     ctx.mark_nontrivial((case, path, mname, ch))
                 where = f"{kind}/{ch}"
-                if r[0] == "ok":
+                if r[0] == "ok" and mname == "insert-foreign-key{}":
+                    ctx.finding("C06/F56/foreign-key-with-an-empty-mapping-as-value-is-silently-dropped", {"path": path, "channel": ch, "mutated": short(bad, 300)})
+                elif r[0] == "ok":
                     ctx.finding(f"C06/{mname}/accepted/{where}", {"path": path, "key": key, "mutated": short(bad if ch != 'option' else extra, 300)})
                 elif r[0] == "esc":
                     ctx.cls("escape (C03)")
                 elif key not in r[1]:
                     ctx.finding(f"C06/{mname}/error-does-not-name-the-key/{where}", {"path": path, "key": key, "message": short(r[1], 300)})
+    # an argument whose type has no nested keys (scalars, lists, tuples, sets) does not accept one on the command line either
+    if not sub:
+        for name, shape, _h, _d in recipe["args"]:
+            scalar = ("int", "float", "bool", "posint", "nnfloat", "unit", "enum", "str", "rstr")
+            # (a list whose items admit nested keys - dicts, dataclasses, class specs - passes a nested option on to its last item)
+            if shape[0] in ("tuple", "tuplevar", "set") + scalar[:-2] or (shape[0] in ("list", "seq") and shape[1][0] in scalar):
+                ctx.evaluations += 1
+                r = parse_via("option", recipe, obj, [f"--{name}.{FOREIGN}=1"])
+                ctx.cls(f"nested-option-below-{shape[0]}:{r[0]}")
+                if r[0] == "ok":
+                    ctx.finding(f"C06/nested-option-below-an-argument-without-nested-keys/accepted/{shape[0]}", {"option": f"--{name}.{FOREIGN}=1"})
     # there is no lenient mode that accepts leftovers: parse_known_args from user code is refused
     try:
         P.build(dict(recipe, env=True)).parse_known_args(["--zq7=1"])
@@ -298,6 +312,9 @@ def required_family(ctx, only=None):
         inner.add_argument("--y", type=int, default=2)
         p.add_argument("--inner", action=ActionParser(parser=inner))  # an embedded parser with a required argument of its own, between the others
         p.add_argument("--after", type=int, required=True)
+        inner2 = ArgumentParser(exit_on_error=False)
+        inner2.add_argument("--z", type=int, required=True)
+        p.add_argument("--my-inner", action=ActionParser(parser=inner2))  # (an option name with a hyphen: the keys use an underscore)
         sc = p.add_subcommands(required=True)
         fit = ArgumentParser(exit_on_error=False)
         fit.add_argument("--data", type=str, required=True)
@@ -312,10 +329,10 @@ def required_family(ctx, only=None):
         sc2.add_subcommand("fast", fast)
         return p
 
-    full = {"fit": {"top": "t", "grp": {"need": 1}, "inner": {"x": 4}, "after": 6, "subcommand": "fit", "fit": {"data": "d"}},
-            "eval": {"top": "t", "grp": {"need": 1}, "inner": {"x": 4}, "after": 6, "subcommand": "eval", "eval": {"ckpt": "c", "how": "fast", "fast": {"n": 2}}}}
-    required = {"fit": [["top"], ["grp", "need"], ["fit", "data"], ["inner", "x"], ["after"]],
-                "eval": [["top"], ["grp", "need"], ["eval", "ckpt"], ["eval", "fast", "n"], ["inner", "x"], ["after"]]}
+    full = {"fit": {"top": "t", "grp": {"need": 1}, "inner": {"x": 4}, "after": 6, "my_inner": {"z": 8}, "subcommand": "fit", "fit": {"data": "d"}},
+            "eval": {"top": "t", "grp": {"need": 1}, "inner": {"x": 4}, "after": 6, "my_inner": {"z": 8}, "subcommand": "eval", "eval": {"ckpt": "c", "how": "fast", "fast": {"n": 2}}}}
+    required = {"fit": [["top"], ["grp", "need"], ["fit", "data"], ["inner", "x"], ["after"], ["my_inner", "z"]],
+                "eval": [["top"], ["grp", "need"], ["eval", "ckpt"], ["eval", "fast", "n"], ["inner", "x"], ["after"], ["my_inner", "z"]]}
 
     def argv_of(obj, sub):
         out = [f"--top={obj['top']}"] if obj.get("top") is not None else []
@@ -325,6 +342,8 @@ def required_family(ctx, only=None):
             out.append(f"--inner.x={obj['inner']['x']}")
         if obj.get("after") is not None:
             out.append(f"--after={obj['after']}")
+        if (obj.get("my_inner") or {}).get("z") is not None:
+            out.append(f"--my-inner.z={obj['my_inner']['z']}")
         out.append(sub)
         sec = obj.get(sub) or {}
         if sub == "fit":
@@ -371,9 +390,9 @@ def required_family(ctx, only=None):
         elif key[-1] not in r[1] and not (mut == "remove-section" and key[-2] in r[1]):
             ctx.finding(f"C06/required-family/{mut}/error-does-not-name-the-key/{where}", {"message": short(r[1], 300)})
 
-    if only is not None:
+    if only is not None and only.get("mutation") != "none":
         return one(only)
-    for sub, path, mut, channel, defaults in itertools.product(("fit", "eval"), range(6), ("remove", "null", "remove-section"), ("object", "string", "argv", "--cfg"), (True, False)):
+    for sub, path, mut, channel, defaults in ([] if only is not None else itertools.product(("fit", "eval"), range(7), ("remove", "null", "remove-section"), ("object", "string", "argv", "--cfg"), (True, False))):
         if path >= len(required[sub]):
             continue
         key = required[sub][path]
@@ -390,13 +409,17 @@ def required_family(ctx, only=None):
     # the unmutated inputs are accepted (precondition of the family)
     for sub in ("fit", "eval"):
         for defaults in (True, False):
-            ctx.begin({"kind": "required", "sub": sub, "mutation": "none", "defaults": defaults})
+            if only is not None and (only["sub"], only["defaults"]) != (sub, defaults):
+                continue
+            if only is None:
+                ctx.begin({"kind": "required", "sub": sub, "mutation": "none", "defaults": defaults})
             try:
                 build().parse_object(copy.deepcopy(full[sub]), defaults=defaults)
                 build().parse_args(argv_of(full[sub], sub), defaults=defaults)
             except Exception as ex:  # noqa
                 ctx.finding("C06/required-family/complete-input-rejected", {"error": fmt_exc(ex), "sub": sub, "defaults": defaults})
-            ctx.end(raise_on_fail=False)
+            if only is None:
+                ctx.end(raise_on_fail=False)
 
 
 def body(ctx):
